@@ -82,20 +82,23 @@ type typeDecl struct {
 }
 
 type pkgCtx struct {
-	dir       string
-	name      string
-	files     []*fileCtx
-	vars      map[string]bool      // package-level var names
-	specs     map[interface{}]bool // their ValueSpecs (ast.Object.Decl)
-	syncLike  map[string]bool      // vars that are synchronisation objects themselves
-	instr     map[string]int       // instrumented var -> id
-	resetFns  []string
-	chans     map[string]bool        // names declared somewhere in the package with a channel type
-	types     map[string]typeDecl    // type declarations of the package
-	alias     map[interface{}]string // receiver field of a singleton type's method -> the package-level variable
-	ptrDecl   map[interface{}]bool   // parameter / receiver fields declared with a pointer type
-	methods   map[string]bool        // method names declared in the package (x.m without a call is a method value, not a field)
-	unsafeObj map[string]bool        // package-level variables holding a standard-library object documented as not safe for concurrent use
+	dir        string
+	name       string
+	files      []*fileCtx
+	vars       map[string]bool      // package-level var names
+	specs      map[interface{}]bool // their ValueSpecs (ast.Object.Decl)
+	syncLike   map[string]bool      // vars that are synchronisation objects themselves
+	instr      map[string]int       // instrumented var -> id
+	resetFns   []string
+	chans      map[string]bool        // names declared somewhere in the package with a channel type
+	types      map[string]typeDecl    // type declarations of the package
+	alias      map[interface{}]string // receiver field of a singleton type's method -> the package-level variable
+	ptrDecl    map[interface{}]bool   // parameter / receiver fields declared with a pointer type
+	methods    map[string]bool        // method names declared in the package (x.m without a call is a method value, not a field)
+	unsafeObj  map[string]bool        // package-level variables holding a standard-library object documented as not safe for concurrent use
+	namedChan  map[string]bool        // type X chan T declared in the package
+	chanStruct map[string]bool        // ... of which those with methods (rewritten to struct{ *vchan.Chan[T] })
+	structVars map[string]bool        // names declared with one of the latter types
 }
 
 // Standard-library objects with internal state and no locking of their own: a method call on
@@ -821,35 +824,120 @@ func isChanExpr(e ast.Expr) bool {
 	return false
 }
 
+// namedChans finds the channel types the package declares (type X chan T). One without methods
+// becomes an alias of the simulated channel type, so every operation on it is rewritten like
+// those on a plain channel; one with methods becomes struct{ *vchan.Chan[T] }: send, receive,
+// close, len and cap still work through the embedded pointer, methods can be declared on it,
+// and where a bare channel is needed (select clauses, comparison with nil) the names declared
+// with such a type get a ".Chan" appended (by name, like everything else here).
+func (p *pkgCtx) namedChans() {
+	p.namedChan, p.chanStruct, p.structVars = map[string]bool{}, map[string]bool{}, map[string]bool{}
+	for _, fc := range p.files {
+		for _, d := range fc.f.Decls {
+			if gd, ok := d.(*ast.GenDecl); ok && gd.Tok == token.TYPE {
+				for _, sp := range gd.Specs {
+					ts := sp.(*ast.TypeSpec)
+					if _, ok := ts.Type.(*ast.ChanType); ok && !ts.Assign.IsValid() && ts.TypeParams == nil {
+						p.namedChan[ts.Name.Name] = true
+					}
+				}
+			}
+		}
+	}
+	for _, fc := range p.files {
+		for _, d := range fc.f.Decls {
+			if fd, ok := d.(*ast.FuncDecl); ok && fd.Recv != nil && len(fd.Recv.List) == 1 {
+				t := fd.Recv.List[0].Type
+				if st, ok := t.(*ast.StarExpr); ok {
+					t = st.X
+				}
+				if id, ok := t.(*ast.Ident); ok && p.namedChan[id.Name] {
+					p.chanStruct[id.Name] = true
+				}
+			}
+		}
+	}
+}
+
+func (p *pkgCtx) isChanTypeExpr(e ast.Expr) bool {
+	switch x := e.(type) {
+	case *ast.Ident:
+		return p.namedChan[x.Name]
+	case *ast.ParenExpr:
+		return p.isChanTypeExpr(x.X)
+	case *ast.CallExpr:
+		if id, ok := x.Fun.(*ast.Ident); ok && id.Name == "make" && len(x.Args) > 0 {
+			return p.isChanTypeExpr(x.Args[0])
+		}
+		if id, ok := x.Fun.(*ast.Ident); ok && p.namedChan[id.Name] && len(x.Args) == 1 {
+			return true // conversion X(c)
+		}
+	}
+	return isChanExpr(e)
+}
+
+func (p *pkgCtx) structChanTypeExpr(e ast.Expr) bool {
+	switch x := e.(type) {
+	case *ast.Ident:
+		return p.chanStruct[x.Name]
+	case *ast.ParenExpr:
+		return p.structChanTypeExpr(x.X)
+	case *ast.CallExpr:
+		if id, ok := x.Fun.(*ast.Ident); ok && id.Name == "make" && len(x.Args) > 0 {
+			return p.structChanTypeExpr(x.Args[0])
+		}
+	}
+	return false
+}
+
+func (p *pkgCtx) isStructChanName(e ast.Expr) bool {
+	switch x := e.(type) {
+	case *ast.Ident:
+		return p.structVars[x.Name]
+	case *ast.SelectorExpr:
+		return p.structVars[x.Sel.Name]
+	case *ast.ParenExpr:
+		return p.isStructChanName(x.X)
+	}
+	return false
+}
+
 // chanNames records every name the package declares with a channel type (variables, struct
 // fields, parameters, results, locals made with make(chan ...)): without type information
 // this is how len(ch), cap(ch) and range over a channel are recognised.
 func (p *pkgCtx) chanNames() {
+	p.namedChans()
+	mark := func(name string, typ ast.Expr, val ast.Expr) {
+		if (typ != nil && p.isChanTypeExpr(typ)) || (val != nil && p.isChanTypeExpr(val)) {
+			p.chans[name] = true
+		}
+		if (typ != nil && p.structChanTypeExpr(typ)) || (val != nil && p.structChanTypeExpr(val)) {
+			p.structVars[name] = true
+		}
+	}
 	for _, fc := range p.files {
 		ast.Inspect(fc.f, func(n ast.Node) bool {
 			switch x := n.(type) {
 			case *ast.ValueSpec:
 				for i, nm := range x.Names {
-					if (x.Type != nil && isChanExpr(x.Type)) || (i < len(x.Values) && isChanExpr(x.Values[i])) {
-						p.chans[nm.Name] = true
+					var v ast.Expr
+					if i < len(x.Values) {
+						v = x.Values[i]
 					}
+					mark(nm.Name, x.Type, v)
 				}
 			case *ast.Field:
-				if isChanExpr(x.Type) {
-					for _, nm := range x.Names {
-						p.chans[nm.Name] = true
-					}
+				for _, nm := range x.Names {
+					mark(nm.Name, x.Type, nil)
 				}
 			case *ast.AssignStmt:
 				if len(x.Lhs) == len(x.Rhs) {
 					for i := range x.Lhs {
-						if isChanExpr(x.Rhs[i]) {
-							switch l := x.Lhs[i].(type) {
-							case *ast.Ident:
-								p.chans[l.Name] = true
-							case *ast.SelectorExpr:
-								p.chans[l.Sel.Name] = true
-							}
+						switch l := x.Lhs[i].(type) {
+						case *ast.Ident:
+							mark(l.Name, nil, x.Rhs[i])
+						case *ast.SelectorExpr:
+							mark(l.Sel.Name, nil, x.Rhs[i])
 						}
 					}
 				}
@@ -1741,6 +1829,19 @@ func (p *pkgCtx) rewriteConcurrency(fc *fileCtx) {
 							fc.repl(ct.Value.End(), x.Rparen, "](")
 						}
 					}
+					// make(X, n) for a channel type X declared in the package
+					if tid, ok := x.Args[0].(*ast.Ident); ok && p.namedChan[tid.Name] {
+						fc.need["vchan"] = true
+						name := tid.Name
+						if p.chanStruct[name] {
+							// X{vchan.MakeLike(X{}.Chan, n)}
+							fc.repl(x.Pos(), x.Args[0].End(), name+"{vchan.MakeLike("+name+"{}.Chan")
+							fc.repl(x.Rparen, x.Rparen+1, ")}")
+						} else {
+							// vchan.MakeLike(X(nil), n)
+							fc.repl(x.Pos(), x.Args[0].End(), "vchan.MakeLike("+name+"(nil)")
+						}
+					}
 				}
 				if (id.Name == "len" || id.Name == "cap") && len(x.Args) == 1 && p.isChanName(x.Args[0]) {
 					m := ").Len()"
@@ -1753,6 +1854,25 @@ func (p *pkgCtx) rewriteConcurrency(fc *fileCtx) {
 				if id.Name == "close" && len(x.Args) == 1 {
 					fc.repl(x.Pos(), x.Args[0].Pos(), "(")
 					fc.repl(x.Args[0].End(), x.Rparen+1, ").Close()")
+				}
+			}
+		case *ast.TypeSpec:
+			if _, ok := x.Type.(*ast.ChanType); ok && p.namedChan[x.Name.Name] {
+				if p.chanStruct[x.Name.Name] {
+					fc.ins(x.Type.Pos(), "struct{ ", 3)
+					fc.ins(x.Type.End(), " }", 7)
+				} else {
+					fc.ins(x.Type.Pos(), "= ", 3)
+				}
+			}
+		case *ast.BinaryExpr:
+			// x == nil / x != nil for a channel type rewritten to a struct
+			if x.Op == token.EQL || x.Op == token.NEQ {
+				if id, ok := x.Y.(*ast.Ident); ok && id.Name == "nil" && id.Obj == nil && p.isStructChanName(x.X) {
+					fc.ins(x.X.End(), ".Chan", 7)
+				}
+				if id, ok := x.X.(*ast.Ident); ok && id.Name == "nil" && id.Obj == nil && p.isStructChanName(x.Y) {
+					fc.ins(x.Y.End(), ".Chan", 7)
 				}
 			}
 		case *ast.ChanType:
@@ -1785,7 +1905,7 @@ func (p *pkgCtx) rewriteSelect(fc *fileCtx, sel *ast.SelectStmt, inComm map[ast.
 		switch c := cc.Comm.(type) {
 		case *ast.SendStmt:
 			temps = append(temps, tmp)
-			exprs = append(exprs, "("+fc.text(c.Chan)+")")
+			exprs = append(exprs, "("+fc.text(c.Chan)+")"+p.rawChan(c.Chan))
 			cases = append(cases, fmt.Sprintf("vchan.SendCase(%s, (%s))", tmp, fc.text(c.Value)))
 		case *ast.ExprStmt:
 			u, ok := c.X.(*ast.UnaryExpr)
@@ -1794,7 +1914,7 @@ func (p *pkgCtx) rewriteSelect(fc *fileCtx, sel *ast.SelectStmt, inComm map[ast.
 				return
 			}
 			temps = append(temps, tmp)
-			exprs = append(exprs, "("+fc.text(u.X)+")")
+			exprs = append(exprs, "("+fc.text(u.X)+")"+p.rawChan(u.X))
 			cases = append(cases, fmt.Sprintf("vchan.RecvCase(%s)", tmp))
 		case *ast.AssignStmt:
 			u, ok := c.Rhs[0].(*ast.UnaryExpr)
@@ -1803,7 +1923,7 @@ func (p *pkgCtx) rewriteSelect(fc *fileCtx, sel *ast.SelectStmt, inComm map[ast.
 				return
 			}
 			temps = append(temps, tmp)
-			exprs = append(exprs, "("+fc.text(u.X)+")")
+			exprs = append(exprs, "("+fc.text(u.X)+")"+p.rawChan(u.X))
 			cases = append(cases, fmt.Sprintf("vchan.RecvCase(%s)", tmp))
 			var l []string
 			for _, e := range c.Lhs {
@@ -1832,6 +1952,14 @@ func (p *pkgCtx) rewriteSelect(fc *fileCtx, sel *ast.SelectStmt, inComm map[ast.
 		// keeps the statement terminating when every clause is (a select without default is)
 		fc.ins(sel.Body.Rbrace, "default: panic(\"vsim: select returned without a clause\"); ", 2)
 	}
+}
+
+// rawChan is ".Chan" for an expression whose declared type is a channel type rewritten to a struct.
+func (p *pkgCtx) rawChan(e ast.Expr) string {
+	if p.isStructChanName(e) {
+		return ".Chan"
+	}
+	return ""
 }
 
 // hookBlock inserts vrace hooks before the statements of a block, recursively.
